@@ -10,6 +10,12 @@ CHECKS = {
  "C09": dict(cat="model_checking", engine="C", technique=ENGINE_C,
    text="All reachable quiescent states of a Lock shared by 3 (thorough: 4) commanded tasks are enumerated to closure; every transition (single event or every in-cycle placement of a second event: acquire/acquire_nowait/release/AnyIO cancel/native cancel/acquire in an already-cancelled scope) is executed on the real Lock and explained by a FIFO-lock reference automaton; public statistics compared at every quiescent point.",
    note="Trusted: VLoop reproduces asyncio.BaseEventLoop batching; cancellations arrive as loop callbacks; uvloop not explored (C scheduler)."),
+ "C10": dict(cat="model_checking", engine="C", technique=ENGINE_C,
+   text="All reachable quiescent states of a Semaphore (initial/max/fast_acquire variants) and a CapacityLimiter (with a foreign borrower and total_tokens assignments 0/1/2/inf) shared by 3 commanded tasks, to closure; every transition and every in-cycle event pair is executed on the real object and explained by a counting/FIFO reference automaton; value/borrowed/available/statistics compared at every quiescent point.",
+   note="Trusted: VLoop batching model; one in-flight acquire_on_behalf_of per foreign borrower; extra releases of an unbounded semaphore capped at initial+2."),
+ "C11": dict(cat="model_checking", engine="C", technique=ENGINE_C,
+   text="All reachable quiescent states of an Event and of a Condition (3 tasks; acquire/release/wait/notify(n)/notify_all with and without the lock, cancellations incl. in the notifying cycle) with every in-cycle event pair; transitions explained by a FIFO lock + FIFO wait-queue automaton with explicit pass-the-notification-on rule.",
+   note="Trusted: VLoop batching model. A native Task.cancel() landing during the shielded re-acquire at the end of wait() legitimately loses the lock/notification (asyncio limitation) and is accepted by the oracle."),
 }
 
 def main():
